@@ -18,9 +18,9 @@ CLAIMED = {
          "Theorems in Props/C15.v: the scan of encode_file fs returns the specified read of every FAB in order and stops; iterating a well-formed level yields a permutation of the per-box reads for every layout; iter(selection) = indexing interface. Implementation iterated under identity/reverse/random/rotated task orders of a controlled pool and compared with the model sequence and the multiset oracle.",
          "multiprocessing.imap ordering guarantee is modelled by the controlled pool, not verified; np.unique = sorted dedup.",
          "DESIGN.md section 3 C15"),
- 'C03': ("Coq proof (validator completeness on every well-formed plotfile image for the 10 option sets outside the binary-data branch; refutation for the other 6) + exhaustive option-set correspondence",
-         "Props/C03.v: taste_good o limit (pf_disk pf) = true for every wf_plotfile, every layout and admissible limit when the binary-data branch is not reached; the branch rejects everything (known finding, KNOWN_FINDINGS.txt key binary-data-branch). All 16 option sets x limits x {fail, nofail} are run on every generated plotfile and compared with the model.",
-         "box-coordinate check exercised on the implementation only; os.listdir; text model restrictions of C02.",
+ 'C03': ("Coq proof (validator completeness on every well-formed plotfile image for all 16 option sets, the np.isclose comparison of the binary-data check being an oracle parameter) + exhaustive option-set correspondence",
+         "Props/C03.v: taste_good close o limit (pf_disk pf) = true for every wf_plotfile, every layout, every admissible limit and every option set; for the six sets reaching the binary-data check (repaired by a fix: commit) under the stated hypothesis that the min/max tables are close to the extrema of the stored non-NaN values; data scan and row order theorems; the pinned code's rejection of everything kept as a refuted theorem. All 16 option sets x limits x {fail, nofail} are run on every generated plotfile (NaN / inf payloads included) and compared with the model, plus images with spoilt tables.",
+         "box-coordinate check exercised on the implementation only; np.isclose / float parsing is an oracle table computed by numpy; signalling NaNs, ragged tables and offset ties are outside; os.listdir; text model restrictions of C02.",
          "DESIGN.md section 3 C03"),
  'C04': ("Coq proof (validator soundness over arbitrary directory contents: accepted implies headers readable at recorded offsets and files exactly tiled) + corruption-stream correspondence with independent oracle",
          "Props/C04.v: good implies every named file exists, every recorded (file, offset) yields a header naming the level header's index range and field count, every file is exactly a FAB sequence for its boxes; an accepted file extended by any bytes is rejected. 17 corruption operators applied singly and in pairs; implementation verdict (both modes) vs model vs independent consistency oracle.",
